@@ -31,6 +31,19 @@ Theorem C12_eqv_is_same_positions : forall a b, wf a -> wf b -> (inv_eqv a b <->
 Proof. intros a b Ha Hb. split; [apply eqv_perm; assumption|apply perm_eqv; assumption]. Qed.
 Print Assumptions C12_eqv_is_same_positions.
 
+(* inventory addition is a commutative monoid on well-formed inventories (as maps) *)
+Theorem C12_add_inventory_monoid : forall a b c, wf a -> wf b -> wf c ->
+  inv_eqv (add_inventory a b) (add_inventory b a)
+  /\ inv_eqv (add_inventory (add_inventory a b) c) (add_inventory a (add_inventory b c))
+  /\ add_inventory [] a = a /\ add_inventory a [] = a
+  /\ wf (add_inventory a b).
+Proof.
+  intros a b c Ha Hb Hc. split; [apply add_inventory_comm; assumption|].
+  split; [apply add_inventory_assoc; assumption|].
+  split; [reflexivity|]. split; [apply add_inventory_nil_r|apply wf_add_inventory; assumption].
+Qed.
+Print Assumptions C12_add_inventory_monoid.
+
 (* ---------------- sum() is a homomorphism ---------------- *)
 Theorem C12_sum_app : forall l1 l2,
   inv_eqv (sum_pos (l1 ++ l2)) (add_inventory (sum_pos l1) (sum_pos l2))
